@@ -38,8 +38,32 @@ def unknown_value(prog, st, t, tag, what):
         if st.choose([b, z3.Not(b)]) == 0:
             return none()
         return some(unknown_value(prog, st, t[len("Option<"):-1], tag + "_some", what))
-    if t.startswith("Vec<"):
-        return SVec([])
+    if t.startswith("Vec<") and t.endswith(">"):
+        # empty, or one element of the element type (as far as it can be made up)
+        b = z3.Bool(tag + "_empty")
+        if st.choose([b, z3.Not(b)]) == 0:
+            return SVec([])
+        try:
+            return SVec([unknown_value(prog, st, t[4:-1], tag + "_0", what)])
+        except Exception:       # noqa
+            return SVec([])
+    if t.startswith("(") and t.endswith(")"):
+        parts, depth, cur = [], 0, ""
+        for ch in t[1:-1]:
+            if ch in "<([":
+                depth += 1
+            elif ch in ">)]":
+                depth -= 1
+            if ch == "," and depth == 0:
+                parts.append(cur)
+                cur = ""
+            else:
+                cur += ch
+        if cur.strip():
+            parts.append(cur)
+        return Agg("tuple", None, [unknown_value(prog, st, x, "%s_%d" % (tag, i), what) for i, x in enumerate(parts)])
+    if t == "Rank":
+        return Agg("adt:Rank", prog.enums["Rank"]["Other"], [SString([st.sym_char(tag + "_text")]), st.sym_bv(tag + "_num", 8)])
     if t.startswith("HashMap<"):
         return SMap(tag)
     return Opaque(what)
